@@ -173,6 +173,8 @@ def judge(args):
             # an iterator that cannot be closed among closable ones must not stop the cleanup
             flavours.append({"src": ["clsnoclose"] + ["cls"] * (nsrc_ - 1), "call": "asyncdef"})
             flavours.append({"src": ["cls"] * (nsrc_ - 1) + ["clsnoclose"], "call": "asyncdef"})
+            # sources whose aclose() fails: every one of them is closed nevertheless
+            flavours.append({"src": ["clsraiseclose"] * nsrc_, "call": "asyncdef"})
     if "C06" in want and kind == "fault":
         flavours.append({"src": "clstruthy", "call": "asyncdef"})
     if "C01" in want and kind == "full" and not is_agg and tool != "iter":
@@ -301,7 +303,7 @@ def judge(args):
                     viol("C04", f"unreleased-{who}-after-{how}", {"projection": "lifecycle", "expected": "closed|exhausted",
                                                                    "observed": o.states, "flavour": fl["src"], "fault_kind": fk,
                                                                    "observed_log": obs_log})
-                if o.close_error:
+                if o.close_error and "clsraiseclose" not in (fl["src"] if isinstance(fl["src"], list) else [fl["src"]]):
                     viol("C04", "close-raises", {"projection": "aclose", "expected": None, "observed": o.close_error})
                 cnt("C04_cases")
             if not o.acct.ok():
